@@ -37,8 +37,49 @@ func pipeLat(r *Rand) int {
 	return r.Intn(8)
 }
 
+// pipeTurnScenario: concurrent submitters. The pipeline is filled while ApplyFunc is gated;
+// background submitter A then gets the submit turn and blocks on back-pressure (wturn);
+// further background submitters with short / cancelled contexts give up while waiting for
+// the turn (wgu); the gate opens, A's block is accepted. `tail` follows (more submissions,
+// settle / pc / drain). A's block is held inside ApplyFunc when holdA is set.
+func pipeTurnScenario(r *Rand, holdA bool, tail string) string {
+	dw := Pick(r, 1, 1, 2, 3)
+	vw := Pick(r, 0, 0, 1, 2)
+	buf := Pick(r, 1, 1, 2)
+	var sb strings.Builder
+	fmt.Fprintf(&sb, "pipe dw=%d vw=%d buf=%d | gate", dw, vw, buf)
+	capacity := buf + dw + buf + 1
+	if vw > 0 {
+		capacity += vw + buf
+	}
+	// more submissions than the pipeline can take, each giving up after a few ms when full
+	for k := capacity + 2 + r.Intn(3); k > 0; k-- {
+		fmt.Fprintf(&sb, " s:g:%d:0:0:0:-", Pick(r, 3, 3, 5))
+	}
+	hold := "-"
+	if holdA {
+		hold = "f"
+	}
+	fmt.Fprintf(&sb, " bs:g:0:0:0:0:%s wturn", hold)
+	for k := 1 + r.Intn(3); k > 0; k-- {
+		fmt.Fprintf(&sb, " bs:%s:%d:0:0:0:-", pipeKind(r, vw), Pick(r, 2, 3, -1))
+	}
+	sb.WriteString(" wgu open")
+	sb.WriteString(tail)
+	return sb.String()
+}
+
 func genC44(r *Rand, n int, tier string, emit func(string)) {
 	for i := 0; i < n; i++ {
+		if r.Chance(1, 6) {
+			// after the turn was given up by waiters, later submissions must get fresh numbers
+			tail := ""
+			for k := 1 + r.Intn(4); k > 0; k-- {
+				tail += fmt.Sprintf(" s:%s:0:0:0:0:-", Pick(r, "g", "g", "d"))
+			}
+			emit(pipeTurnScenario(r, false, tail+" settle pc"))
+			continue
+		}
 		dw := Pick(r, 1, 1, 2, 3, 4, 8, 16)
 		vw := Pick(r, 0, 0, 1, 2, 4, 16)
 		buf := Pick(r, 1, 1, 2, 3, 5)
